@@ -3,6 +3,7 @@ CONSTANTS
   Configs <- CancelConfigs
   Fixed = TRUE
   AllowForeignClose = FALSE
+  AllowCancel = TRUE
 VIEW View
 INVARIANT PacketBoundary
 INVARIANT NoStaleOutput
